@@ -98,6 +98,61 @@ pub fn probes(w: i32, h: i32, src: &SrcSpec, o: Opts, quick: bool) -> Vec<Op> {
     v
 }
 
+/// scenes on long strips (len x 2 or 2 x len): draws at the far end, a full-length sliver fill
+/// and a full-length mask with non-periodic coverage, in the clip / layer contexts
+pub fn wide_scenes(mode: BlendMode, tall: bool, len: i32) -> Vec<Scene> {
+    let mut out = Vec::new();
+            let lf = len as f32;
+            let (w, h) = if tall { (2, len) } else { (len, 2) };
+            let t = |x: f32, y: f32| if tall { (y, x) } else { (x, y) };
+            let ti = |x: i32, y: i32| if tall { (y, x) } else { (x, y) };
+            let mut hctx = contexts(w, h, true);
+            if len > 300 {
+                hctx.truncate(3);
+            }
+            let (sx, sy) = t(50. - lf, 0.);
+            let srcs = [
+                SrcSpec::Solid(0x80402010),
+                SrcSpec::Solid(0xff204080),
+                SrcSpec::Image { w: 5, h: 3, data: image_of(5, 3, &VALS12, 1), repeat: true, bilinear: false, xf: [1., 0., 0., 1., sx, sy] },
+                SrcSpec::Image { w: 2, h: 2, data: vec![0x80002040; 4], repeat: false, bilinear: true, xf: [0.7, 0.2, -0.3, 1.1, 0.35, -0.6] },
+                SrcSpec::Linear { stops: vec![Stop { pos: 0.0, color: 0x80ff8040 }, Stop { pos: 1.0, color: 0x80ff8040 }], spread: Spr::Reflect, p: [0., 0., 5., 3.] },
+            ];
+            for alpha in [1.0f32, 0.5] {
+                let o = Opts { mode, alpha, aa: true };
+                for src in &srcs {
+                    let (mx, my) = ti(len - 46, 0);
+                    let (mw, mh) = ti(5, 2);
+                    let (ix, iy) = t(lf - 45., 0.);
+                    let (iw, ih) = ti(4, 2);
+                    let (rx, ry) = t(lf - 49.5, 0.25);
+                    let (rw, rh) = t(48.75, 1.5);
+                    let (fw, fh) = ti(len, 1);
+                    // coverage bytes with period 251 (no divisor in common with any power of two)
+                    let long_mask: Vec<u8> = (0..len).map(|k| [0u8, 255, 128, 1, 254, 64][((k % 251) % 6) as usize]).collect();
+                    let probes = vec![
+                        Op::Fill(PathSpec::poly(&[t(lf - 60., 0.), t(lf, 0.5), t(lf - 48.75, 2.)]), src.clone(), o),
+                        Op::Fill(PathSpec::poly(&[t(-5., 1.), t(lf + 10., -1.), t(lf + 10., 3.)]), src.clone(), Opts { aa: false, ..o }),
+                        Op::Fill(PathSpec::poly(&[t(-5., 1.), t(lf + 10., 0.25), t(lf + 10., 1.75)]), src.clone(), o),
+                        Op::FillRect(rx, ry, rw, rh, src.clone(), o),
+                        Op::Mask(mx, my, mw, mh, vec![255, 128, 1, 0, 64, 255, 200, 7, 99, 254], src.clone()),
+                        Op::Mask(0, 0, fw, fh, long_mask, src.clone()),
+                        Op::DrawImageAt(ix, iy, iw, ih, image_of(iw, ih, &VALS12, 3), o),
+                    ];
+                    for probe in probes {
+                        for (_cn, pre, suf) in hctx.iter() {
+                            let mut ops = pre.clone();
+                            ops.push(probe.clone());
+                            ops.extend(suf.iter().cloned());
+                            let scene = Scene { w, h, dst: dst_cols(w, h, &VALS12, 3), ops };
+                            out.push(scene);
+                        }
+                    }
+                }
+            }
+    out
+}
+
 fn run_one(run: &Run, shard: usize, l: &mut Local, scene: &Scene) {
     l.states += scene.ops.len() as u64 + 1;
     match run_scene("C03", scene, owns, &classify) {
@@ -266,48 +321,10 @@ impl Check for C03 {
         // H: wide and tall surfaces (device coordinates beyond 256: strides, narrow casts in the
         // span / shader / mask paths)
         let hmodes = [BlendMode::SrcOver, BlendMode::Src, BlendMode::Xor, BlendMode::Multiply, BlendMode::DstIn];
-        run.bound("wide-tall", format!("300x2 and 2x300 surfaces x {} modes x 2 alphas x 5 sources x 5 probes (fills, fill_rect, mask, draw_image_at beyond x or y = 256) x all contexts", hmodes.len()));
-        run.par(hmodes.len() * 2, |i, l| {
-            let mode = hmodes[i / 2];
-            let tall = i % 2 == 1;
-            let (w, h) = if tall { (2, 300) } else { (300, 2) };
-            let t = |x: f32, y: f32| if tall { (y, x) } else { (x, y) };
-            let ti = |x: i32, y: i32| if tall { (y, x) } else { (x, y) };
-            let hctx = contexts(w, h, true);
-            let (sx, sy) = t(-250., 0.);
-            let srcs = [
-                SrcSpec::Solid(0x80402010),
-                SrcSpec::Solid(0xff204080),
-                SrcSpec::Image { w: 5, h: 3, data: image_of(5, 3, &VALS12, 1), repeat: true, bilinear: false, xf: [1., 0., 0., 1., sx, sy] },
-                SrcSpec::Image { w: 2, h: 2, data: vec![0x80002040; 4], repeat: false, bilinear: true, xf: [0.7, 0.2, -0.3, 1.1, 0.35, -0.6] },
-                SrcSpec::Linear { stops: vec![Stop { pos: 0.0, color: 0x80ff8040 }, Stop { pos: 1.0, color: 0x80ff8040 }], spread: Spr::Reflect, p: [0., 0., 5., 3.] },
-            ];
-            for alpha in [1.0f32, 0.5] {
-                let o = Opts { mode, alpha, aa: true };
-                for src in &srcs {
-                    let (mx, my) = ti(254, 0);
-                    let (mw, mh) = ti(5, 2);
-                    let (ix, iy) = t(255., 0.);
-                    let (iw, ih) = ti(4, 2);
-                    let (rx, ry) = t(250.5, 0.25);
-                    let (rw, rh) = t(48.75, 1.5);
-                    let probes = vec![
-                        Op::Fill(PathSpec::poly(&[t(240., 0.), t(300., 0.5), t(251.25, 2.)]), src.clone(), o),
-                        Op::Fill(PathSpec::poly(&[t(-5., 1.), t(310., -1.), t(310., 3.)]), src.clone(), Opts { aa: false, ..o }),
-                        Op::FillRect(rx, ry, rw, rh, src.clone(), o),
-                        Op::Mask(mx, my, mw, mh, vec![255, 128, 1, 0, 64, 255, 200, 7, 99, 254], src.clone()),
-                        Op::DrawImageAt(ix, iy, iw, ih, image_of(iw, ih, &VALS12, 3), o),
-                    ];
-                    for probe in probes {
-                        for (_cn, pre, suf) in hctx.iter() {
-                            let mut ops = pre.clone();
-                            ops.push(probe.clone());
-                            ops.extend(suf.iter().cloned());
-                            let scene = Scene { w, h, dst: dst_cols(w, h, &VALS12, 3), ops };
-                            run_one(run, 6000 + i, l, &scene);
-                        }
-                    }
-                }
+        run.bound("wide-tall", format!("300x2, 2x300, 8200x2 and 2x8200 surfaces x {} modes x 2 alphas x 5 sources x 7 probes (fills, fill_rect, mask, draw_image_at at the far end; full-length sliver fill and full-length mask with non-periodic coverage) x all contexts (first 3 for the 8200 strips)", hmodes.len()));
+        run.par(hmodes.len() * 4, |i, l| {
+            for scene in wide_scenes(hmodes[i / 4], i % 2 == 1, if (i / 2) % 2 == 1 { 8200 } else { 300 }) {
+                run_one(run, 6000 + i, l, &scene);
             }
         });
         super::mixed::explore_mixed(run, "C03", owns, if deep { 6 } else { 5 }, false);
